@@ -29,6 +29,7 @@ def check(tree, rep, tier='quick', seed=0):
     R.k6_single_value_writer(core, rep)
     R.k7_missing_key_raises(core, rep)
     R.k22_solution_agreement(core, rep)  # the solution text is the stored value, written verbatim (what the user reads as the line's value)
+    R.k14_solution_lists_all(core, rep)  # a partial solution is what was computed, all of it: nothing a reported line was computed from is left out
     R.k8_input_store_writes(core, rep)
     R.k11_input_gate(core, rep)
     R.k21_typed_values(core, rep)
